@@ -220,8 +220,14 @@ fn pair_second<R: HRole>(a: &Runner<R>, version: Version, role_n: u64, ver: u64,
         }
     }
     if pair == 16 {
-        b.apply(&Op::RestorePackets(snap.0.clone()), st);
-        b.apply(&Op::RestoreQos2(snap.1.clone()), st);
+        // the API prescribes no order for the two halves of the export
+        if k_a % 2 == 0 {
+            b.apply(&Op::RestorePackets(snap.0.clone()), st);
+            b.apply(&Op::RestoreQos2(snap.1.clone()), st);
+        } else {
+            b.apply(&Op::RestoreQos2(snap.1.clone()), st);
+            b.apply(&Op::RestorePackets(snap.0.clone()), st);
+        }
     }
     b
 }
